@@ -85,12 +85,25 @@ class Prog:
     __str__ = __repr__
 
 
+class Geno:
+    """The genotype: prints differently from the program it maps to (as every representation but the tree-based does)."""
+
+    def __init__(self, i, text):
+        self.i = i
+        self.text = text
+
+    def __repr__(self):
+        return f"Geno(dna=[{self.i}])"
+
+    __str__ = __repr__
+
+
 class Rep(Representation):
     def create_genotype(self, random, **kw):
         raise NotImplementedError
 
     def genotype_to_phenotype(self, g):
-        return g
+        return Prog(g.i, g.text)
 
 
 TEXTS = {
@@ -267,7 +280,7 @@ def run_unit(unit) -> UnitResult:
                     expected_at = []
                     # programs exist before the loop: inside it only Individual objects are allocated and (in ephemeral
                     # histories) freed, so a new individual readily takes the address of the one that just died
-                    progs = [Prog(i, TEXTS[unit["text"]](i)) for i in range(len(seq))]
+                    progs = [Geno(i, TEXTS[unit["text"]](i)) for i in range(len(seq))]
                     dead_ids: set = set()
                     if nobj == 1:
                         other_problem = SingleObjectiveProblem(lambda p: 1000.0 + p.i, minimize=True)
